@@ -264,7 +264,7 @@ Qed.
 Theorem cv_to_list_inv c v xs : cv_inv v xs -> cv_cap (cv_width v) (lenN xs) ->
   cv_to_list c v = Ok xs.
 Proof.
-  intros Hinv Hcap. unfold cv_to_list, nseq.
+  intros Hinv Hcap. unfold cv_to_list. rewrite ?nseq_unfold.
   assert (Hlen : cv_len v = lenN xs) by apply Hinv.
   rewrite (map_res_seq _ xs).
   - rewrite Hlen. unfold lenN. rewrite Nat2N.id. cbn [skipn]. rewrite firstn_all. reflexivity.
